@@ -63,6 +63,8 @@ pub trait Caps {
     }
     fn take(self: Box<Self>) -> Result<i64, Box<dyn Caps>>;
     fn into_child(self: Box<Self>) -> Result<Box<dyn Caps>, Box<dyn Caps>>;
+    /// ob_try(self, fail): outer Err = not available; inner Err = the call failed (nothing comes back)
+    fn try_child(self: Box<Self>, fail: bool) -> Result<Result<Box<dyn Caps>, ()>, Box<dyn Caps>>;
     fn kid_owned(&self) -> Option<Box<dyn Caps>> {
         None
     }
@@ -141,6 +143,9 @@ macro_rules! no_consume {
         fn into_child(self: Box<Self>) -> Result<Box<dyn Caps>, Box<dyn Caps>> {
             Err(self)
         }
+        fn try_child(self: Box<Self>, _fail: bool) -> Result<Result<Box<dyn Caps>, ()>, Box<dyn Caps>> {
+            Err(self)
+        }
     };
 }
 macro_rules! ob_consume {
@@ -150,6 +155,12 @@ macro_rules! ob_consume {
         }
         fn into_child(self: Box<Self>) -> Result<Box<dyn Caps>, Box<dyn Caps>> {
             Ok(Box::new(HRa(self.0.ob_into())))
+        }
+        fn try_child(self: Box<Self>, fail: bool) -> Result<Result<Box<dyn Caps>, ()>, Box<dyn Caps>> {
+            Ok(match self.0.ob_try(fail) {
+                Ok(c) => Ok(Box::new(HRa(c)) as Box<dyn Caps>),
+                Err(()) => Err(()),
+            })
         }
     };
 }
@@ -873,6 +884,21 @@ impl World {
                 if m == "ob_take" {
                     let r = ledger::track(|| obj.take()).unwrap_or_else(|_| panic!("ob_take not available"));
                     self.last = ret(r);
+                } else if m == "ob_try_err" {
+                    let r = ledger::track(|| obj.try_child(true)).unwrap_or_else(|_| panic!("ob_try not available"));
+                    self.last = if r.is_err() { json!({"kind":"err","n":0}) } else { json!({"kind":"unexpected-ok","n":0}) };
+                } else if m == "ob_try_ok" {
+                    let y = e["y"].as_u64().unwrap() as usize - 1;
+                    let id = self.be.next_id();
+                    let o = ledger::track(|| obj.try_child(false)).unwrap_or_else(|_| panic!("ob_try not available"));
+                    match o {
+                        Ok(o) => {
+                            let meta2 = Meta { kind: "box".into(), t: "obj".into(), tr: "Ra".into(), req: vec![], inst: id, ctx: meta.ctx };
+                            self.slots[y] = Some(Slot { meta: meta2, obj: o });
+                            self.last = ok;
+                        }
+                        Err(()) => self.last = json!({"kind":"unexpected-err","n":0}),
+                    }
                 } else {
                     let y = e["y"].as_u64().unwrap() as usize - 1;
                     let id = self.be.next_id();
